@@ -122,6 +122,19 @@ CLAIMED = {
              'pinned commit; name mode (key = config name) is covered with C20',
         technique='Coq kernel-checked golden equations (vm_compute, Gallina SHA-256) + three-way differential check',
         ref='DESIGN.md section 5, C12'),
+    'C13': dict(
+        category='proof',
+        text='Theorems: MultiChain construction is the fold of Chain construction over one object set and one registry; '
+             'every task gets in a member chain exactly the key the standalone chain gives it (the hash-chain key is proved '
+             'functional and independent of what the registry already holds, by induction over the fuelled re-creation); '
+             'registration returns the same object for two tasks iff class slug and key coincide (no over-sharing, no '
+             'duplication) and keeps the registry well formed; a value computed through one member is a memory hit through '
+             'any other; MultiChain.force fans out member by member. Tied to MultiChain/Chain._create_task by differential '
+             'histories with MultiChains of 2-3 overlapping configs next to standalone chains on one data directory.',
+        note='"same key iff same computation" is C02/C03; dict order of MultiChain.chains follows the config list',
+        technique='Coq proof (registry invariant, mutual inductive key relation with functional determinism) + differential '
+                  'histories via vm_compute',
+        ref='DESIGN.md section 5, C13'),
     'C16': dict(
         category='proof',
         text='Theorems for every signature, positional prefix and keyword order: the decorator\'s normalisation binds '
